@@ -42,7 +42,7 @@ EXTRA_ROOTS = [
     "r2k3r/1b4bq/8/3R4/8/8/7B/4K2R b K - 3 2",
     "3r2k1/1P3ppp/8/8/8/8/5PPP/3R2K1 w - - 0 1",
     "4k3/8/8/8/8/5n2/4P3/3RK2r w - - 0 1",
-    "6k1/5ppp/8/8/2b5/8/3pKPPP/2R5 b - - 0 1",
+    "6k1/5ppp/8/8/2b5/8/3pKPPP/2R5 w - - 0 1",
     "4k3/p1p1p1p1/8/1P1P1P1P/p1p1p1p1/8/1P1P1P1P/4K3 w - - 0 1",
     "4k3/p1p1p1p1/8/1P1P1P1P/p1p1p1p1/8/1P1P1P1P/4K3 b - - 0 1",
     "r3k2r/p1p1p1p1/8/1P1P1P1P/p1p1p1p1/8/1P1P1P1P/R3K2R w KQkq - 0 1",
